@@ -5,7 +5,7 @@ use deduplication::Chunker;
 use crate::ctx::{fnv, join, Ctx};
 use crate::rng::Rng;
 
-fn mask_of(target: usize) -> u64 {
+pub fn mask_of(target: usize) -> u64 {
     let m = (target - 1) as u64;
     m << m.leading_zeros()
 }
